@@ -6,6 +6,7 @@ CONSTANTS
   FailKinds = {"kl"}
   NVH = 1
   MinReg = 0
+  Renames = FALSE
   Collect = FALSE
 INVARIANT Mark
 POSTCONDITION Accepted
